@@ -245,7 +245,30 @@ func (d digraph) build() *am.VerifGraph {
 
 // randDigraph: density and weight palette vary; self loops, parallel overwrites,
 // zero weights and unreachable parts all occur.
+// exhIdx >= 0: the graph families enumerate instead of sampling — scenario exhIdx is the exhIdx-th digraph on
+// exactly maxN vertices (every ordered pair, loops included, absent or weighted with one of the first two
+// weights of the palette), so that -n base^(maxN*maxN) covers all of them
+var exhIdx = -1
+
 func randDigraph(r *rng, maxN int, weights []int, dag bool) digraph {
+	if exhIdx >= 0 {
+		ws := weights
+		if len(ws) > 2 {
+			ws = ws[:2]
+		}
+		base := len(ws) + 1
+		d := digraph{n: maxN}
+		k := exhIdx
+		for u := 0; u < maxN; u++ {
+			for v := 0; v < maxN; v++ {
+				if c := k % base; c > 0 {
+					d.edges = append(d.edges, edge{u, v, ws[c-1]})
+				}
+				k /= base
+			}
+		}
+		return d
+	}
 	n := 1 + r.intn(maxN)
 	d := digraph{n: n}
 	m := r.intn(n*n/2 + 2)
